@@ -3,7 +3,7 @@
 independent confirmation (/tmp/confirm/results/<id>.json, tools/confirm_mutant.sh) succeeded. caught_by is filled by
 tools/mutant_matrix.sh (results in /tmp/confirm/matrix/<id>.<PROP>.rc)."""
 import glob, json, os, re, shutil
-INC = "/verif/seeded/_incoming"
+INCS = [("/verif/seeded/_incoming", "", 1), ("/verif/seeded/_incoming2", "b", 2)]
 NEEDS = {
 "C01-1": "callable terminal currents that go from non-zero to exactly zero on every terminal (switched-off pulse; or thermalisation with a ramp starting at 0)",
 "C01-2": "sequence on ONE Device object: make_mesh, terminal_info()/solve, make_mesh with other boundary vertices, solve with non-zero currents",
@@ -49,17 +49,36 @@ NEEDS = {
 ROUND = 1
 MISSED_FIRST = {"C01-1", "C01-2", "C02-2", "C03-1", "C03-2", "C04-2", "C05-1", "C06-1", "C09-2", "C10-2", "C16-1", "C19-2", "C20-1"}
 base_fail = open("/tmp/confirm/results/BASE.failing.txt").read() if os.path.exists("/tmp/confirm/results/BASE.failing.txt") else None
+import subprocess
+WT = "/tmp/regenwt"
+subprocess.run(["git", "-C", "/repo", "worktree", "remove", "--force", WT], capture_output=True)
+subprocess.run(["git", "-C", "/repo", "worktree", "add", "--detach", WT, "HEAD", "-q"], check=True)
+
+
+def regen(patch):
+    """the same change as a diff against the current /repo HEAD (so that plain `git apply` works)"""
+    subprocess.run(["git", "-C", WT, "reset", "-q", "--hard", "HEAD"], check=True)
+    r = subprocess.run(["git", "-C", WT, "apply", "--3way", patch], capture_output=True)
+    if r.returncode != 0:
+        r = subprocess.run(["git", "-C", WT, "apply", patch], capture_output=True)
+        if r.returncode != 0:
+            return None
+    subprocess.run(["git", "-C", WT, "reset", "-q"], check=True)
+    out = subprocess.run(["git", "-C", WT, "diff"], capture_output=True, text=True).stdout
+    return out or None
+
+
 rows = []
-for d in sorted(glob.glob(INC + "/*/")):
+for d, tag, rnd in [(d, tag, rnd) for (inc, tag, rnd) in INCS for d in sorted(glob.glob(inc + "/*/"))]:
     prop = os.path.basename(d.rstrip("/"))
-    for k in (1, 2, 3):
+    for k in (1, 2, 3, 4):
         patch = os.path.join(d, f"change_{k}_ported.diff")
         ported = os.path.exists(patch)
         if not ported:
             patch = os.path.join(d, f"change_{k}.diff")
         if not os.path.exists(patch):
             continue
-        mid = f"{prop}-{k}"
+        mid = f"{prop}-{tag}{k}"
         resf = f"/tmp/confirm/results/{mid}.json"
         if not os.path.exists(resf):
             continue
@@ -72,7 +91,12 @@ for d in sorted(glob.glob(INC + "/*/")):
             continue
         out = f"/verif/seeded/{mid}"
         os.makedirs(out, exist_ok=True)
-        shutil.copy(patch, os.path.join(out, "patch.diff"))
+        fresh = regen(patch)
+        if fresh is None:
+            print("PATCH NO LONGER APPLIES", mid)
+            shutil.copy(patch, os.path.join(out, "patch.diff"))
+        else:
+            open(os.path.join(out, "patch.diff"), "w").write(fresh)
         shutil.copy(os.path.join(d, f"demo_{k}.py"), os.path.join(out, "demo.py"))
         notes = os.path.join(d, f"notes_{k}.md")
         if os.path.exists(notes):
@@ -82,7 +106,7 @@ for d in sorted(glob.glob(INC + "/*/")):
         notcaught = sorted(os.path.basename(f).split(".")[1] for f in glob.glob(f"/tmp/confirm/matrix/{mid}.*.rc") if open(f).read().strip() == "0")
         first = [l.strip("# ").strip() for l in ntext.splitlines() if l.strip()][:1]
         meta = {
-            "id": mid, "property": prop, "origin": "independent sub-agent given only the property text and a scratch worktree (round 1)",
+            "id": mid, "property": prop, "origin": f"independent sub-agent given only the property text and a scratch worktree (round {rnd}" + (", told to avoid the round-1 mechanisms)" if rnd == 2 else ")"),
             "title": first[0] if first else "", "ported_to_fixed_tree": ported,
             "needs_to_manifest": NEEDS.get(mid, "see notes.md"),
             "confirmed": {"head": res["head"], "patch_applies_to_head": True, "demo_exit_without_change": res["demo_rc_clean"], "demo_exit_with_change": res["demo_rc_mutant"],
@@ -93,6 +117,7 @@ for d in sorted(glob.glob(INC + "/*/")):
         }
         json.dump(meta, open(os.path.join(out, "meta.json"), "w"), indent=1)
         rows.append((mid, prop, meta["title"][:90], caught, mid in MISSED_FIRST))
+subprocess.run(["git", "-C", "/repo", "worktree", "remove", "--force", WT], capture_output=True)
 print(len(rows), "kept")
 tab = ["| id | property | change | caught by (quick) | first missed -> check strengthened |", "|---|---|---|---|---|"]
 for mid, prop, title, caught, mf in rows:
